@@ -16,8 +16,35 @@ def _leg(name, quick, thorough, **kw):
     return d
 
 
+_RC = [
+        # key scanner + editing handlers
+        "key_insert_mid_line", "key_backspace_mid_line", "key_delete_mid_line", "key_backspace_at_col0", "key_left", "key_left_at_col0", "key_right", "key_right_at_end",
+        "key_home", "key_end", "key_up_recall", "key_up_at_oldest", "key_down_recall", "key_down_to_empty", "key_noop_fnkey", "key_noop_tab", "key_noop_alt",
+        "key_noop_ctrlalt", "key_noop_esc_trailing", "enter_crlf", "enter_lf", "enter_crnul", "enter_cr_trailing", "deliveries_with_several_enters",
+        "lines_executed_after_recall", "lines_multi_segment", "probe_calls_required_and_checked", "prompt_checks",
+        # history cap / history itself not stored
+        "history_store_pinned", "history_cmd_not_stored_pinned", "history_eviction_at_cap", "history_listing_full_20", "history_listing_equals_reference",
+        "history_open_line_stored", "history_open_line_not_stored",
+        # history re-run parses and bounds-checks the index
+        "histref_entry_absolute", "histref_entry_negative", "histref_entry_bangbang", "histref_entry_with_full_history", "histref_error_with_empty_history",
+        "histref_error_bangbang_empty_history", "histref_error_absolute_out_of_range", "histref_error_negative_out_of_range", "histref_error_non_numeric",
+        "histref_error_empty_argument", "histref_error_number_beyond_int", "histref_cases",
+        # session teardown deferred to the next loop pass
+        "sessions_ended_by_exit", "hostile_segments_with_repeated_exit", "hostile_sessions_ended_by_exit", "hostile_calls_on_dead_session", "tcp_exit_then_eof_seen",
+        "tcp_repeated_exit_in_one_write",
+        # node trees
+        "tree_cycle_marker_seen", "tree_deleted_marker_seen", "deleted_node_message_seen", "tree_listings_seen", "tree_cyclic_mounts_direct", "hostile_liveness_probe_ok",
+        # telnet IAC framing waits for complete commands
+        "tcp_iac_cut_across_segments", "tcp_wont_replies_checked", "tcp_nop_replies_checked", "tcp_sb_truncated", "tcp_sb_naws_short_first_data", "tcp_sb_nested",
+        "tcp_ff_runs", "tcp_truncated_iac_at_close", "tcp_rst_close", "tcp_half_close", "tcp_abrupt_close", "tcp_probe_calls_required_and_checked", "tcp_prompt_checks",
+        "tcp_liveness_probe_ok", "tcp_cases_over_loopback_tcp", "tcp_cases_over_unix_socket",
+]
+_RC_FUZZ = ["fuzz_execs_direct", "fuzz_execs_telnet", "fuzz_sessions_ended_by_exit", "fuzz_tree_cycle_markers", "fuzz_tree_deleted_markers",
+            "fuzz_error_replies", "fuzz_inputs_with_iac", "fuzz_inputs_with_escape", "fuzz_probe_calls", "fuzz_liveness_ok"]
+
 PROP = dict(
-    harnesses={_H: dict(sources=["harness/c13_terminal.cpp"])},
+    harnesses={_H: dict(sources=["harness/c13_terminal.cpp"]),
+               "c13_fuzz": dict(sources=["harness/c13_fuzz.cpp"], ldflags=["-fsanitize=fuzzer"])},
     legs=[
         _leg("editor", 60000, 3000000),
         # 30 reference forms x 7 fill levels x {leading blanks} x {follow-up kind}: every combination once
@@ -29,6 +56,9 @@ PROP = dict(
         _leg("tcprpc", 2000, 0),
         _leg("telnet-thorough", 0, 500000, mode="telnet", args=["--watchdog", "30", "--tcp-every", "40"]),
         _leg("tcprpc-thorough", 0, 300000, mode="tcprpc", args=["--watchdog", "30", "--tcp-every", "40"]),
+        # coverage-guided: one case = one libFuzzer session of 50000 runs (40 sessions = 2 M runs), see harness/c13_fuzz.cpp
+        dict(name="fuzz", harness="c13_fuzz", flavour="fuzz", mode="fuzz", args=["--runs", "50000", "--maxlen", "192"],
+             quick=0, thorough=40, scalable=False, env=_ENV, case_timeout=900),
     ],
     rule=("editor: one case = one Terminal (real epoll loop, recording Connection, probe function nodes /p /q /d/r /d/e/s) driven by 40-220 keys, "
           "generated online against the reference editor of harness/c13_ref.hpp: printable characters (all but '#'), Backspace 7f/08, Delete, Left, Right, Home, End, "
@@ -52,6 +82,9 @@ PROP = dict(
           "(keys unsplit, telnet commands DO/DONT/WILL/WONT/NOP/GA/SB NAWS/SB TTYPE/IAC IAC cut anywhere) are checked for probe invocations (reply markers in the byte stream), "
           "one prompt per Enter plus the greeting, one WONT per DONT, one NOP per NOP, Bye + EOF after exit; hostile clients send IAC soup, unterminated / nested / short SB blocks, "
           "0xFF runs, 60 KB lines, repeated exit, then half-close / close / RST; finally a fresh client's command must be executed. "
+          "fuzz (thorough): 40 libFuzzer sessions of 50000 runs (clang ASan+UBSan, fixed dictionary of commands, escape sequences and telnet codes, inputs <= 192 bytes cut "
+          "into length-prefixed segments with optional loop passes) against onRecvString on a Terminal with a cyclic, partly deleted node tree and against Telnetd over a "
+          "unix-domain socket; every 256th input a fresh client must get `/p 42 'x y'` executed exactly. "
           "Any crash, abort, uncaught exception (also caught in-process and keyed by type), ASan/UBSan or pool-poison report is a violation; a case that does not finish is a hang datum. "
           "Non-trivial: editor = at least one mid-line edit, one required probe invocation checked and one executed recall or checked history reference; "
           "hostile = more than 10 sends recorded; tcp = at least two probe invocations. distinct = distinct hashes of the delivered byte strings."),
@@ -70,37 +103,16 @@ PROP = dict(
         "client-side TCP_NODELAY and TCP_QUICKACK keep loopback delivery synchronous with the loop passes; if a reply is still missing the harness keeps turning the loop for up to "
         "2 s of real time before it judges the content (counter tcp_settle_waits_10ms, normally absent)",
         "deleteSession from the transport while an exit is still queued for that session is not generated (neither TCP front end can produce it); the proposed fix covers it anyway",
-        "the libFuzzer leg sketched in DESIGN is not built (the fuzz flavour of the library does not compile with clang-14, see lib/props_c19.py); the hostile and TCP legs are "
-        "sized up instead",
+        "the libFuzzer leg (thorough tier) has no reference model: it judges crashes, sanitizer reports, uncaught exceptions, endless output, liveness answers of "
+        "onRecvString, sends to torn-down sessions and a periodic probe command only; its telnet target runs over a unix-domain socket",
     ],
     technique=("lock-step reference editor / command classifier against the real Terminal over generated keystroke scripts, enumerated history-reference sub-space, "
-               "hostile byte streams through onRecvString and through Telnetd / TcpRpc on loopback TCP sockets, all under ASan+UBSan with a poisoned session pool"),
+               "hostile byte streams through onRecvString and through Telnetd / TcpRpc on loopback TCP and unix-domain sockets, coverage-guided libFuzzer sessions (thorough), "
+               "all under ASan+UBSan with a poisoned session pool"),
     level_text=("Tens of thousands of keystroke scripts are executed by the real shell and by an independent reference editor; the argument vectors reaching probe nodes, the prompt "
                 "sends, the shell's own history listing and session teardown are compared after every delivery. Every history-reference form is tried at every history fill level. "
                 "Hostile bytes, cyclic / deleted node trees and misbehaving TCP clients run under AddressSanitizer/UBSan with pooled sessions poisoned; a crash of the child is a datum. "
                 "Held on the scripts and streams explored, not a proof."),
     level_note="trusts the reference editor / tokenizer in harness/c13_ref.hpp, gcc ASan/UBSan and the kernel's loopback TCP; equivalence is claimed only for unsplit key encodings",
-    required_counters={"all": [
-        # key scanner + editing handlers
-        "key_insert_mid_line", "key_backspace_mid_line", "key_delete_mid_line", "key_backspace_at_col0", "key_left", "key_left_at_col0", "key_right", "key_right_at_end",
-        "key_home", "key_end", "key_up_recall", "key_up_at_oldest", "key_down_recall", "key_down_to_empty", "key_noop_fnkey", "key_noop_tab", "key_noop_alt",
-        "key_noop_ctrlalt", "key_noop_esc_trailing", "enter_crlf", "enter_lf", "enter_crnul", "enter_cr_trailing", "deliveries_with_several_enters",
-        "lines_executed_after_recall", "lines_multi_segment", "probe_calls_required_and_checked", "prompt_checks",
-        # history cap / history itself not stored
-        "history_store_pinned", "history_cmd_not_stored_pinned", "history_eviction_at_cap", "history_listing_full_20", "history_listing_equals_reference",
-        "history_open_line_stored", "history_open_line_not_stored",
-        # history re-run parses and bounds-checks the index
-        "histref_entry_absolute", "histref_entry_negative", "histref_entry_bangbang", "histref_entry_with_full_history", "histref_error_with_empty_history",
-        "histref_error_bangbang_empty_history", "histref_error_absolute_out_of_range", "histref_error_negative_out_of_range", "histref_error_non_numeric",
-        "histref_error_empty_argument", "histref_error_number_beyond_int", "histref_cases",
-        # session teardown deferred to the next loop pass
-        "sessions_ended_by_exit", "hostile_segments_with_repeated_exit", "hostile_sessions_ended_by_exit", "hostile_calls_on_dead_session", "tcp_exit_then_eof_seen",
-        "tcp_repeated_exit_in_one_write",
-        # node trees
-        "tree_cycle_marker_seen", "tree_deleted_marker_seen", "deleted_node_message_seen", "tree_listings_seen", "tree_cyclic_mounts_direct", "hostile_liveness_probe_ok",
-        # telnet IAC framing waits for complete commands
-        "tcp_iac_cut_across_segments", "tcp_wont_replies_checked", "tcp_nop_replies_checked", "tcp_sb_truncated", "tcp_sb_naws_short_first_data", "tcp_sb_nested",
-        "tcp_ff_runs", "tcp_truncated_iac_at_close", "tcp_rst_close", "tcp_half_close", "tcp_abrupt_close", "tcp_probe_calls_required_and_checked", "tcp_prompt_checks",
-        "tcp_liveness_probe_ok", "tcp_cases_over_loopback_tcp", "tcp_cases_over_unix_socket",
-    ]},
+    required_counters={"quick": _RC, "thorough": _RC + _RC_FUZZ},
 )
